@@ -529,6 +529,7 @@ def explore(run, props):
     nmax = 3 if quick else 4
     stride = 7 if quick else 3
     cnt = 0
+    cut = False
     for n in range(1, nmax + 1):
         for ms in multisets(n, grid, WIDTHS if n < 3 else WIDTHS[:2] if quick else WIDTHS):
             cnt += 1
@@ -537,7 +538,10 @@ def explore(run, props):
             labels = [list(x) for x in ms]
             for options in option_matrix(labels, quick):
                 one(run, props, labels, options)
-        if run.left() < run.budget * 0.4:
+            if cnt % 20 == 0 and run.left() < run.budget * 0.4:
+                cut = True       # (the C06 histories cost several layouts per case: the cut must be possible inside one n)
+                break
+        if cut or run.left() < run.budget * 0.4:
             run.note("enumerated scope cut at n=%d by the time budget" % n)
             break
     else:
